@@ -40,6 +40,16 @@ class Ranges:
     def width(self, t):
         return self.num.cfg.width(self.num.ty_of(t))
 
+    def aff_exact(self, t):
+        """affine form of t; a narrowing cast is the identity when the store shows that the value fits the target"""
+        num = self.num
+        if isinstance(t, tuple) and t and t[0] == "cast":
+            src = self.aff_exact(t[1])
+            wt = num.cfg.width(t[2])
+            if src is not None and wt is not None and self.ent_le(src, const((1 << wt) - 1)) and self.ent_le(const(0), src):
+                return src
+        return num.aff(t)
+
     def full(self, t):
         w = self.width(t)
         return (const(0), const(w)) if w else None
@@ -58,6 +68,10 @@ class Ranges:
             return None
         if t in self.entry:
             return self.entry[t]
+        lg = self.ilog2_of(t)
+        if lg is not None and t[0] != "const":
+            # r = ilog2(t): t < 2^(r+1)
+            return (const(0), lg + const(1))
         rf = getattr(num, "range_facts", None)
         if rf and t in rf:
             return rf[t]
@@ -95,7 +109,7 @@ class Ranges:
         if k == "binop":
             op = t[1]
             if op in ("Shl", "ShlUnchecked"):
-                r, kk = self.rng(t[2]), num.aff(t[3])
+                r, kk = self.rng(t[2]), self.aff_exact(t[3])
                 if r is None or kk is None:
                     return self.full(t)
                 hi = r[1] + kk
@@ -105,12 +119,23 @@ class Ranges:
                     hi = m if m is not None else hi
                 return (r[0] + kk, hi)
             if op in ("Shr", "ShrUnchecked"):
-                r, kk = self.rng(t[2]), num.aff(t[3])
+                r, kk = self.rng(t[2]), self.aff_exact(t[3])
                 if r is None or kk is None:
                     return self.full(t)
                 lo = r[0] - kk
                 m = self.amax(lo, const(0))
                 return (m if m is not None else lo, r[1] - kk)
+            if op == "BitXor":
+                # x ^ (1 << ilog2(x)) clears the top bit: the result is < 2^ilog2(x)
+                for x, m in ((t[2], t[3]), (t[3], t[2])):
+                    m2 = m
+                    while isinstance(m2, tuple) and m2[0] == "cast":
+                        m2 = m2[1]
+                    if isinstance(m2, tuple) and m2[0] == "binop" and m2[1] == "Shl" and m2[2][0] == "const" and m2[2][1] == 1:
+                        lg = self.ilog2_of(x)
+                        kk = num.aff(m2[3])
+                        if lg is not None and kk is not None and self.ent_le(lg, kk) and self.ent_le(kk, lg):
+                            return (const(0), kk)
             if op in ("BitOr", "BitXor"):
                 a, b = self.rng(t[2]), self.rng(t[3])
                 if a is None or b is None:
@@ -155,7 +180,7 @@ class Ranges:
             return self.full(t)
         if k == "wordop":
             if t[1] in ("rotate_right", "rotate_left") and len(t) > 3:
-                r, kk, w = self.rng(t[2]), num.aff(t[3]), self.width(t[2])
+                r, kk, w = self.rng(t[2]), self.aff_exact(t[3]), self.width(t[2])
                 if r is not None and kk is not None and w is not None:
                     lo, hi = r
                     if t[1] == "rotate_right":
@@ -168,6 +193,15 @@ class Ranges:
                             return (lo + kk, hi + kk)
                         if self.ent_le(const(w), lo + kk) and self.ent_le(kk, const(w)):
                             return (lo + kk - const(w), hi + kk - const(w))
+            return self.full(t)
+        if k == "ret" and t[2].endswith("::wrapping_sub"):
+            for e in getattr(num, "ctx_events", []):
+                if e[0] == "call" and e[3] == t and len(e[2]) == 2:
+                    a, b = e[2]
+                    if b[0] == "const" and b[1] == 1 and a[0] == "binop" and a[1] == "Shl" and a[2][0] == "const" and a[2][1] == 1:
+                        kk = num.aff(a[3])
+                        if kk is not None:
+                            return (const(0), kk)
             return self.full(t)
         if k in ("okval", "field"):
             # results of reads: Ok(read_bits(n)) / Ok(peek_bits(n)) have their set bits in [0, n)
@@ -184,6 +218,13 @@ class Ranges:
         if k in ("lin", "havoc", "arg", "ret", "deref", "local", "index"):
             return self.full(t)
         return self.full(t)
+
+    def ilog2_of(self, t):
+        """affine form of ilog2(t) when the path computed it"""
+        for e in getattr(self.num, "ctx_events", []):
+            if e[0] == "call" and e[1].endswith("::ilog2") and e[2] and e[2][0] == t:
+                return self.num.aff(e[3])
+        return None
 
     def empty(self, r):
         return r is not None and self.ent_le(r[1], r[0])
